@@ -103,3 +103,28 @@ TEXT = {
 NA = {
     "C20": "pure functions of their input (config hash tables of a single caller, ABTU_ato*, affinity grammar, env clamping): no schedule, clock, fault or interleaving in the property, so deterministic simulation has nothing to decide (DESIGN.md 6/C20)",
 }
+
+# additions of the later sessions (scenario families and monitors added after the texts above were written)
+ADD = {
+    "C01": "Also: streams with three or four pools of their own; units of cooperative stacked schedulers that create ULTs in the runtime's pools and join them; the dispatch and pool-reuse scenarios shared with C14 / C06.",
+    "C02": "Also: switches performed on the caller's behalf by short-lived unnamed ULTs on malloc'ed stacks (exit_to / resume_exit_to by a unit that is freed during the switch); the yield_to-race scenario.",
+    "C03": "Also: the joiner revives the joined unit once and joins its second life (whatever ended the first one, including a cancellation before it ever ran).",
+    "C04": "Also: the condition-variable scenario on a recursive mutex (ownership given up and regained inside the wait); the wait-list monitor M-waitlist (well-formed list over exactly the waiting callers after every enqueue / wake-up pass).",
+    "C05": "Also: a white-box layer over the wait-list events: release-and-wait atomicity checked at every signal / broadcast issued under the mutex, ABT_SUCCESS exactly for callers a signal dequeued, TIMEDOUT exactly for callers that unlinked themselves at or after the deadline; tasklet callers (refused for ABT_cond_wait, served for ABT_cond_timedwait); M-waitlist.",
+    "C06": "Also: a private pool listed by a second scheduler object (spare, or replaced and not yet freed); pool re-use by successive streams; units that replace their stream's main scheduler during the join.",
+    "C07": "Also: one ABT_pool_push_threads call of 60..100 units racing with a single push and an unbounded pop_many must stay one queue operation; blocking pops that come back empty-handed must not have missed a push (FIFO_WAIT, single consumer, fault-free batches); deadlines in the past.",
+    "C08": "Also: the execution-stream barrier with external threads, tasklets and a single stream; a waiter that receives a cancellation request while blocked in the last round; the barrier freed by the first released waiter; M-waitlist.",
+    "C09": "Also: re-arm (set immediately followed by reset while released waiters are still on their way out); the waiter creates the eventual / future and frees it as soon as its wait returned (free quarantine shows late writes of the setter); tasklet waits are refused and leave the object intact; M-waitlist.",
+    "C10": "Also: tasklet callers, which are refused and must leave the lock usable.",
+    "C11": "Also: the proxy switches described for C02; migration and cancellation requests pending at directed switches.",
+    "C13": "Also: a running stream whose scheduler has no pool (never a target); joined-but-not-freed streams; requests through streams and schedulers; the sequence scenario.",
+    "C14": "Also: scenario failed-associations (fault injection: the k-th allocation of an associating call fails, or create_unit declines, over two user-defined pools with separate unit accounting); legacy pools with p_pop_timedwait under BASIC_WAIT schedulers; dispatch by unit handle; bulk moves.",
+    "C15": "Also: one attribute object per creator re-used across creations (user stack, then library-allocated stack) with a read-back check; churn; cancel-at-pop; monitor M-local-pool (stream-local memory pools are used by one OS thread at a time).",
+    "C16": "Also: runs that start after hundreds or tens of thousands of keys were created and deleted (high key ids); keys deleted and replaced while units hold values for them; concurrently created keys.",
+    "C17": "Also: streams ended by ABT_xstream_cancel / ABT_xstream_exit / ABT_sched_exit with work queued, then revived.",
+    "C18": "Now 48 table entries (incl. ABT_thread_migrate, moves between two user-defined pools, ABT_pool_push_threads of 70 units, printing routines), create_unit declining as a second fault kind, scenario migration-handler (the failure happens while a migration request is being served) and scenario keytable-race (two first setters of one unit, one failing).",
+    "C19": "Also: 'never' deadlines (LONG_MAX and other huge tv_sec values), tasklet timed waiters, the white-box layer described for C05, far-deadline blocking pops and the missed-push oracle described for C07; M-waitlist.",
+}
+for _k, _v in ADD.items():
+    TEXT[_k]["level_text"] += " " + _v
+TEXT["C14"]["technique"] += "; fault injection (failing allocation / declining create_unit) in the failed-associations scenario"
